@@ -406,6 +406,8 @@ func (c *fctx) applyContract(fr *frame, key string, ct *spec.FuncContract, fn *s
 	st.h["alloc"] = na
 	c.regions["alloc"] = "(Array Int Bool)"
 	c.assume(fmt.Sprintf("(forall ((x!a Int)) (! (=> (select %s x!a) (select %s x!a)) :pattern ((select %s x!a))))", preAlloc, na, preAlloc))
+	// derived fact, stated directly (memory is never freed): what was allocated on entry still is
+	c.assume(fmt.Sprintf("(forall ((x!a Int)) (! (=> (select alloc0 x!a) (select %s x!a)) :pattern ((select %s x!a))))", na, na))
 	e.st = st
 	e.preAlloc = preAlloc
 	// results
@@ -695,6 +697,17 @@ func (c *fctx) doAppend(fr *frame, cm *ssa.CallCommon, reach string, st *state, 
 	c.assume(fmt.Sprintf("(forall ((j!p Int)) (! (=> (and (<= 0 j!p) (< j!p %s)) (= (select %s (idx (soff %s) (+ (slen %s) j!p))) %s)) :pattern (%s)))", n, arr, res, s, srcAt("j!p"), srcAt("j!p")))
 	// in place: everything outside the appended window is unchanged
 	c.assume(fmt.Sprintf("(=> %s (forall ((x!p Int)) (! (=> (or (< x!p (+ (soff %s) (slen %s))) (>= x!p (+ (soff %s) %s))) (= (select %s x!p) (select (select %s (sbase %s)) x!p))) :pattern ((select %s x!p)))))", fits, s, s, s, nlen, arr, h, s, arr))
+	// byte slices: the bytes of the result are the bytes of the slice followed by the appended bytes
+	// (true by construction of arr; stated so that no extensionality argument is needed)
+	if eb, _ := types.Unalias(et).Underlying().(*types.Basic); eb != nil && eb.Kind() == types.Uint8 {
+		var srcStr string
+		if isString(cm.Args[1].Type()) {
+			srcStr = src.t
+		} else {
+			srcStr = fmt.Sprintf("(bytesToStr (select %s (sbase %s)) (soff %s) (slen %s))", h, src.t, src.t, src.t)
+		}
+		c.assume(fmt.Sprintf("(= (bytesToStr %s (soff %s) %s) (strcat (bytesToStr (select %s (sbase %s)) (soff %s) (slen %s)) %s))", arr, res, nlen, h, s, s, s, srcStr))
+	}
 	c.setRegion(st, key, srt, fmt.Sprintf("(store %s (sbase %s) %s)", h, res, arr))
 	return val{t: res}
 }
